@@ -59,6 +59,7 @@ func c01(c *Ctx) {
 	c01Client(c)
 	c01VerdictTested(c)
 	c01SignedState(c)
+	c01RowColumns(c, "C01.7/row-columns-compared-with-proven-row")
 	// ---- C01.5 proto conversions carry every field ---------------------------------------------------------------------
 	c01Proto(c)
 }
@@ -754,5 +755,130 @@ func c01SignedState(c *Ctx) {
 	}
 	if n < 8 {
 		c.undecided(r, "floor", fmt.Sprintf("%d signed-state sites found in pkg/server (9 confirmed by hand)", n))
+	}
+}
+
+// c01RowColumns: VerifyRow proves the encoded row and then accepts the row shown to the user only if each of its
+// columns equals the proven one. In verifyRowAgainst every column of the shown row is looked up in the proven row
+// before the loop moves on; a column found there is compared with Equal; a column absent from it is let through only
+// after the shown value was tested to be NULL (NULLs are not encoded).
+func c01RowColumns(c *Ctx, r string) {
+	f := c.mustFn(r, "pkg/client.verifyRowAgainst")
+	if f == nil {
+		return
+	}
+	lookupOn := func(param string) sitePred {
+		return func(in ssa.Instruction) bool {
+			l, ok := in.(*ssa.Lookup)
+			return ok && desc(l.X) == "param:"+param
+		}
+	}
+	from := sites(f, lookupOn("colIdsByName"))
+	proven := sites(f, lookupOn("decodedRow"))
+	if len(from) != 1 || len(proven) != 1 {
+		c.undecided(r, fnName(f), fmt.Sprintf("column-id lookup (%d) / proven-row lookup (%d) not found once each", len(from), len(proven)))
+		return
+	}
+	next := func(in ssa.Instruction) bool { return in == from[0] || successReturn(in) }
+	q := &pathQ{fn: f, from: from, to: next, via: lookupOn("decodedRow")}
+	if w := q.bypass(); w != nil {
+		c.fail(r, fnName(f)+":every-column-looked-up", c.pos(w[len(w)-1].Pos()), "a column of the shown row is accepted without consulting the proven row: "+c.witnessStr(w))
+	} else {
+		c.ok(r, fnName(f)+":every-column-looked-up", c.pos(from[0].Pos()), "every path to the next column or to success passes decodedRow[colID]")
+	}
+	absent := whenCond(false, atomContains("decodedRow"))
+	present := whenCond(true, atomContains("decodedRow"))
+	isEqual := func(in ssa.Instruction) bool {
+		cc := callOf(in)
+		return cc != nil && cc.IsInvoke() && cc.Method.Name() == "Equal"
+	}
+	q = &pathQ{fn: f, from: proven, to: next, via: isEqual, barrier: absent}
+	if w := q.bypass(); w != nil {
+		c.fail(r, fnName(f)+":present-column-compared", c.pos(w[len(w)-1].Pos()), "a column present in the proven row is accepted without Equal: "+c.witnessStr(w))
+	} else {
+		c.ok(r, fnName(f)+":present-column-compared", c.pos(proven[0].Pos()), "a column found in the proven row reaches the next column only through Equal")
+	}
+	isNullTest := func(in ssa.Instruction) bool {
+		ta, ok := in.(*ssa.TypeAssert)
+		return ok && strings.Contains(ta.AssertedType.String(), "SQLValue_Null")
+	}
+	q = &pathQ{fn: f, from: proven, to: next, via: isNullTest, barrier: present}
+	if w := q.bypass(); w != nil {
+		c.fail(r, fnName(f)+":absent-column-is-null", c.pos(w[len(w)-1].Pos()), "a column absent from the proven row is accepted without testing that the shown value is NULL: "+c.witnessStr(w))
+	} else {
+		c.ok(r, fnName(f)+":absent-column-is-null", c.pos(proven[0].Pos()), "a column absent from the proven row is accepted only after the NULL test")
+	}
+	// ... and the outcome of each test decides: the next column is reached from the NULL test only on its true edge, and
+	// from Equal only on the edge where it reported equality
+	edgeWhere := func(want bool, src func(v ssa.Value) bool) edgePred {
+		return func(b *ssa.BasicBlock, succ int) bool {
+			if len(b.Instrs) == 0 {
+				return false
+			}
+			ifi, ok := b.Instrs[len(b.Instrs)-1].(*ssa.If)
+			if !ok {
+				return false
+			}
+			v, pol := ifi.Cond, true
+			for {
+				u, ok := v.(*ssa.UnOp)
+				if !ok || u.Op != token.NOT {
+					break
+				}
+				v, pol = u.X, !pol
+			}
+			if !src(v) {
+				return false
+			}
+			return ((succ == 0) == pol) == want
+		}
+	}
+	nullOutcome := func(v ssa.Value) bool {
+		e, ok := v.(*ssa.Extract)
+		if !ok || e.Index != 1 {
+			return false
+		}
+		ta, ok := e.Tuple.(*ssa.TypeAssert)
+		return ok && isNullTest(ta)
+	}
+	equalOutcome := func(v ssa.Value) bool {
+		e, ok := v.(*ssa.Extract)
+		if !ok || e.Index != 0 {
+			return false
+		}
+		cl, ok := e.Tuple.(*ssa.Call)
+		return ok && isEqual(cl)
+	}
+	q = &pathQ{fn: f, from: proven, to: next, barrier: anyEdge(present, edgeWhere(true, nullOutcome))}
+	if w := q.bypass(); w != nil {
+		c.fail(r, fnName(f)+":absent-column-null-outcome", c.pos(w[len(w)-1].Pos()), "a column absent from the proven row is accepted although the shown value is not NULL: "+c.witnessStr(w))
+	} else {
+		c.ok(r, fnName(f)+":absent-column-null-outcome", c.pos(proven[0].Pos()), "the absent-column path continues only on the isNull edge")
+	}
+	q = &pathQ{fn: f, from: sites(f, isEqual), to: next, barrier: edgeWhere(true, equalOutcome)}
+	if w := q.bypass(); w != nil {
+		c.fail(r, fnName(f)+":equal-outcome", c.pos(w[len(w)-1].Pos()), "the next column is reached although Equal did not report equality: "+c.witnessStr(w))
+	} else {
+		c.ok(r, fnName(f)+":equal-outcome", c.pos(proven[0].Pos()), "the comparison path continues only on the equals edge")
+	}
+	for name, ep := range map[string]edgePred{"isNull": edgeWhere(true, nullOutcome), "equals": edgeWhere(true, equalOutcome), "found-in-proven-row": present} {
+		ne := 0
+		for _, b := range f.Blocks {
+			for si := range b.Succs {
+				if ep(b, si) {
+					ne++
+				}
+			}
+		}
+		if ne == 0 {
+			c.undecided(r, fnName(f)+":"+name+"-edge", "the branch on the "+name+" outcome was not recognised")
+		}
+	}
+	// both verdict-bearing tests are acted upon
+	n := 0
+	for _, in := range sites(f, isEqual) {
+		n++
+		okk, d := errHandled(in)
+		c.check(okk, r, fmt.Sprintf("%s:Equal#%d:error-handled", fnName(f), n), c.pos(in.Pos()), d, d)
 	}
 }
